@@ -30,7 +30,7 @@ func C15(r *Run) *core.Report {
 	janitors := map[*ssa.Function]bool{}
 	reachedGo := map[ssa.Instruction]bool{}
 	finalizers := map[*ssa.Function]bool{}
-	c15TwinVerdicts = [2]map[string]bool{{}, {}}
+	r.c15Twin = [2]map[string]bool{{}, {}}
 	for i := 0; i < 2; i++ {
 		ctor := r.M.CacheCtor[i]
 		if ctor == nil {
@@ -40,11 +40,11 @@ func C15(r *Run) *core.Report {
 		defer func(twin, from int) {}(i, obsBefore)
 		recordTwin := func() {
 			for _, o := range rep.Obs[obsBefore:] {
-				if _, seen := c15TwinVerdicts[i][o.Rule]; !seen {
-					c15TwinVerdicts[i][o.Rule] = true
+				if _, seen := r.c15Twin[i][o.Rule]; !seen {
+					r.c15Twin[i][o.Rule] = true
 				}
 				if o.Status != core.Pass {
-					c15TwinVerdicts[i][o.Rule] = false
+					r.c15Twin[i][o.Rule] = false
 				}
 			}
 		}
@@ -61,6 +61,39 @@ func C15(r *Run) *core.Report {
 				}
 			}
 		})
+		// ... or in a step function the constructor calls and whose result it returns (return c.wrap())
+		wrapHost := ctor
+		if wrapAlloc == nil {
+			core.Instrs(ctor, func(in ssa.Instruction) {
+				c, ok := in.(*ssa.Call)
+				if !ok || wrapAlloc != nil {
+					return
+				}
+				cal := core.Callee(c)
+				if cal == nil || cal.Pkg != r.P.Cache || cal.Blocks == nil {
+					return
+				}
+				core.Instrs(cal, func(in2 ssa.Instruction) {
+					if a, ok := in2.(*ssa.Alloc); ok {
+						if n, ok := elemOf(a.Type()).(*types.Named); ok && (n == wrap || n.Origin() == wrap) {
+							wrapAlloc, wrapHost = a, cal
+						}
+					}
+				})
+				if wrapHost == cal {
+					// every return of the constructor hands back what the step function returned
+					allRet := true
+					core.Instrs(ctor, func(in3 ssa.Instruction) {
+						if ret, isRet := in3.(*ssa.Return); isRet {
+							if len(ret.Results) != 1 || core.StripConv(ret.Results[0]) != ssa.Value(c) {
+								allRet = false
+							}
+						}
+					})
+					rep.Check(allRet, "C15.J3", fn(ctor)+" returns the wrapper built by "+fn(cal), r.P.InstrPos(in), "the constructor returns the step function's result on every path", "the constructor does not return the wrapper its step function builds on every path: callers hold an object without a finalizer")
+				}
+			})
+		}
 		if wrapAlloc == nil {
 			rep.Fail("C15.J3", fn(ctor)+" wrapper", r.P.Pos(ctor.Pos()), "constructor does not allocate the outer wrapper object: without it no finalizer can stop the janitor while the goroutine keeps the cache reachable")
 			continue
@@ -179,7 +212,7 @@ func C15(r *Run) *core.Report {
 			rep.Fail("C15.J3", fn(ctor)+" SetFinalizer", r.P.Pos(ctor.Pos()), "no runtime.SetFinalizer on the wrapper: the janitor goroutine is never told to stop, every dropped cache leaks a goroutine and its contents")
 		} else {
 			all := true
-			core.Instrs(ctor, func(in ssa.Instruction) {
+			core.Instrs(wrapHost, func(in ssa.Instruction) {
 				if ret, ok := in.(*ssa.Return); ok && !core.Dominates(finCall, ret) {
 					all = false
 				}
@@ -259,8 +292,8 @@ func C15(r *Run) *core.Report {
 			tw = 1
 		}
 		k := fmt.Sprintf("C15.J1/default-constructor-arg%d", v.Arg)
-		if old, seen := c15TwinVerdicts[tw][k]; !seen || old {
-			c15TwinVerdicts[tw][k] = v.OK
+		if old, seen := r.c15Twin[tw][k]; !seen || old {
+			r.c15Twin[tw][k] = v.OK
 		}
 	}
 	optionFlow(r, rep, "C15.J1")
@@ -317,9 +350,6 @@ func C15(r *Run) *core.Report {
 func syntheticForwarder(f *ssa.Function) bool {
 	return f != nil && f.Synthetic != "" && (strings.Contains(f.Synthetic, "bound method wrapper") || strings.Contains(f.Synthetic, "thunk") || strings.Contains(f.Synthetic, "wrapper for"))
 }
-
-// c15TwinVerdicts records, per twin constructor, whether each C15 rule family held (used by C12.W4).
-var c15TwinVerdicts [2]map[string]bool
 
 func isChanField(t *types.Named, field string) bool {
 	st, ok := t.Underlying().(*types.Struct)
